@@ -476,7 +476,7 @@ impl Property for C12 {
         true
     }
     fn rule(&self) -> String {
-        "cases: (bounded-exhaustive) every statement tree over {let a, let b, a <- k, b <- k, print a, print b, begin..end, if true/false then .. [else ..], while once do .., calls of a function / method / method of an object literal written at the call site that reads, assigns or shadows a (or reads b)} with at most N nodes and nesting <= D (quick N=4 D=2, thorough N=5 D=3), in four contexts (top level, top-level block, function body, method body); every let/<- writes a distinct constant; programs outside the fragment (a use not dominated by its definition, same-scope redefinition, a global that exists only later) are filtered by a static analysis and counted; (random) larger programs from the typed generator with the scope-heavy profile (no arithmetic, arrays or objects). oracle: reference semantics (output and the failure of out-of-scope uses). non-trivial: contains a shadowing, or a use after leaving the scope of a same-named inner variable, or a callee touching a name the caller also defines; distinct by source".into()
+        "cases: (bounded-exhaustive) every statement tree over {let a, let b, a <- k, b <- k, print a, print b, begin..end, if true/false then .. [else ..], while once do .., calls of a function / method / method of an object literal written at the call site that reads, assigns or shadows a (or reads b)} with at most N nodes and nesting <= D (quick N=4 D=2, thorough N=5 D=3), in four contexts (top level, top-level block, function body, method body); every let/<- writes a distinct constant; programs outside the fragment (a use not dominated by its definition, same-scope redefinition, a global that exists only later) are filtered by a static analysis and counted; (random) larger programs from the typed generator with the scope-heavy profile (no arithmetic, arrays or objects) and, for a third of them, the scope-mixed profile (as many blocks and lets, with arrays, computed initializers, objects and arithmetic next to them). oracle: reference semantics (output and the failure of out-of-scope uses). non-trivial: contains a shadowing, or a use after leaving the scope of a same-named inner variable, or a callee touching a name the caller also defines; distinct by source".into()
     }
     fn assumptions(&self) -> Vec<String> {
         vec![
@@ -542,7 +542,9 @@ impl Property for C12 {
     }
     fn judge_tape(&self, tape: &[u8], ctx: &mut Ctx) -> Judged {
         let mut t = Tape::new(tape);
-        let g = generate(&mut t, &Profile::scope_heavy());
+        let mixed = t.chance(85);
+        let g = generate(&mut t, &if mixed { Profile::scope_mixed() } else { Profile::scope_heavy() });
+        ctx.label(if mixed { "profile:scope-mixed" } else { "profile:scope-heavy" });
         let r = refsem::run(&g.prog, refsem::DEFAULT_FUEL);
         let nontrivial = r.stats.shadow_reads > 0 || (r.stats.user_calls > 0 && r.stats.prints > 1);
         let case = || json!({"tape": hex(tape), "source": render::pretty(&g.prog), "ir": serde_json::to_value(&g.prog).unwrap()});
